@@ -274,6 +274,28 @@ theorem C10_frame (ops : List (Nat × CursorOp)) (cs : List Cursor) (j : Nat) (c
       have hne : (i == j) = false := by simpa using hij
       simp [hne]
 
+/-- **executemany** leaves the cursor as the execute of the LAST parameter set leaves it - rowcount, rownumber,
+    description and the rows still to be fetched are those of that result alone - and changes nothing when there is no
+    parameter set -/
+theorem C10_executemany (c : Cursor) (results : List (List (String × String) × List CRow)) :
+    c.executemany results =
+      match results.getLast? with
+      | none => c
+      | some r => { c with rows := some r.2, rowcount := r.2.length, pos := 0, desc := some r.1 } := by
+  unfold Cursor.executemany
+  induction results generalizing c with
+  | nil => rfl
+  | cons r rest ih =>
+    simp only [List.foldl_cons]
+    rw [ih]
+    cases rest with
+    | nil => simp [Cursor.step]
+    | cons r2 rest2 =>
+      simp only [List.getLast?_cons_cons]
+      cases h : (r2 :: rest2).getLast? with
+      | none => simp at h
+      | some l => simp [Cursor.step]
+
 /-! ### non-vacuity -/
 example : Inv [[.int 1], [.int 2], [.int 3]] (({} : Cursor).step (.execute [("x", "int")] [[.int 1], [.int 2], [.int 3]])).1 :=
   execute_inv _ _ _
